@@ -171,12 +171,23 @@ def generate_case(rnd, D, k):
         lo = distgen.col([distgen.dy(rnd, -4, -1) for _ in range(d)])
         hi = distgen.col([distgen.dy(rnd, 1, 4) for _ in range(d)])
         obj = D.Uniform(lo.copy(), hi.copy())
+        if rnd.random() < 0.4:
+            # the box is replaced after construction: samples must follow the box that misfit() now describes
+            lo = distgen.col([distgen.dy(rnd, -6, -2) for _ in range(d)])
+            hi = distgen.col([distgen.dy(rnd, 2, 7) for _ in range(d)])
+            obj.update_bounds(lo.copy(), hi.copy())
         s = obj.generate(repeat, rng=rng)
         if rng.calls and rng.calls[0][0] == "uniform":
             a = rng.calls[0][1]
             if not (numpy.array_equal(numpy.asarray(a[0]), lo) and numpy.array_equal(numpy.asarray(a[1]), hi)):
                 out.append(("generate-parameters", f"Uniform.generate draws uniform({a[0]}, {a[1]}) for bounds {col(lo)}, {col(hi)}"))
             want = rng.calls[0][3]
+        elif rng.calls and rng.calls[0][0] == "random":
+            want = lo + (hi - lo) * numpy.asarray(rng.calls[0][3]).reshape(d, -1)      # the same law from unit uniforms
+        if want is not None:
+            sa = numpy.asarray(s, dtype=float)
+            if sa.shape == (d, repeat) and ((sa < lo - 1e-12).any() or (sa > hi + 1e-12).any()):
+                out.append(("generate-outside-support-uniform", f"Uniform with bounds {col(lo)}, {col(hi)} (after update_bounds where applicable) generated {sa.T.tolist()}"))
     elif kind == "composite":
         parts = [D.Normal(distgen.col([distgen.dy(rnd)]), distgen.col([distgen.pos(rnd)])), D.Laplace(distgen.col([distgen.dy(rnd)]), distgen.col([distgen.pos(rnd)])),
                  D.Uniform(distgen.col([-1.0]), distgen.col([2.0]))]
@@ -184,7 +195,8 @@ def generate_case(rnd, D, k):
         s = obj.generate(repeat, rng=rng)
         if len(rng.calls) == 3:
             c = rng.calls
-            want = numpy.vstack([c[0][3] * numpy.sqrt(parts[0].covariance) + parts[0].means, c[1][3], c[2][3]])
+            upart = c[2][3] if c[2][0] == "uniform" else (-1.0 + 3.0 * numpy.asarray(c[2][3]).reshape(1, -1))     # uniform(-1, 2), or the same from unit uniforms
+            want = numpy.vstack([c[0][3] * numpy.sqrt(parts[0].covariance) + parts[0].means, c[1][3], upart])
     elif kind == "mixture":
         weights = rnd.choice([[0.25, 0.75], [0.0, 0.25, 0.75], [0.2, 0.3, 0.5], [0.5, 0.0, 0.5], [0.02, 0.9, 0.08]])
         repeat = rnd.choice([1, 2, 5, 12])
